@@ -222,10 +222,12 @@ def c07(case, obs):
                           if _job(o['jobs'], j) is not None and _job(o['jobs'], j)[0] not in ('finished',))
             if sorted(o['store']) != want:
                 bad.append((i, f'job store holds {sorted(o["store"])}, live added jobs are {want}'))
-            if op[0] in CREATE and o['out'] == 'EKeyError':
+            if op[0] in CREATE and o['out'] != 'Done':
+                # the caller got an exception instead of a control: nothing was added from its point of view
                 prev_store = obs[i - 1]['store'] if i else []
                 if o['store'] != prev_store:
-                    bad.append((i, 'a refused duplicate id changed the job store'))
+                    bad.append((i, f'a creation refused with {o["out"]} changed the job store: '
+                                   f'{prev_store} -> {o["store"]}'))
     return bad
 
 
